@@ -1,7 +1,7 @@
 (* C18: statements the faithful (pinned) model refutes.  Not part of the default build; allowed to
    stop compiling when a defect gets fixed in the model's pinned variant. *)
 From Coq Require Import ZArith Bool String List.
-From Ice Require Import Model.PrioSpec Model.GatherSpec Model.GatherCycle Proofs.GatherSpecProofs Proofs.GatherCycleProofs.
+From Ice Require Import Model.PrioSpec Model.GatherSpec Model.GatherStateCycle Proofs.GatherSpecProofs Proofs.GatherStateCycleProofs.
 Import ListNotations.
 Local Open Scope Z_scope.
 
